@@ -373,6 +373,8 @@ class Engine:
         if rng.random() < 0.5:
             # label -> target dictionary; some targets may be "hidden" (not keys)
             keys = [v for v in V if rng.random() < 0.8 or any(e[0] == v for e in E)]
+            if rng.random() < 0.3:      # every sink is "hidden": it appears only as a target
+                keys = [v for v in V if any(e[0] == v for e in E)]
             content = [[v, [[e[2], e[1]] for e in E if e[0] == v]] for v in keys]
             return {"op": "ctor_label", "new": self._new_id(world), "d": did,
                     "content": content, "starts": starts}
